@@ -6152,6 +6152,22 @@ impl BytecodeVM {
 
                 let prop_key = interp.property_key_from_value(key);
 
+                // An array's length must be a uint32, and small enough to materialise
+                if let PropertyKey::String(k) = &prop_key
+                    && k.as_str() == "length"
+                    && obj_ref.borrow().is_array()
+                {
+                    let n = value.to_number();
+                    if n < 0.0
+                        || n.fract() != 0.0
+                        || !n.is_finite()
+                        || n > u32::MAX as f64
+                        || n as usize > crate::value::MAX_DENSE_ARRAY_LENGTH
+                    {
+                        return Err(JsError::range_error("Invalid array length"));
+                    }
+                }
+
                 // Check if object is frozen/sealed or property is non-writable
                 // First, check for accessor or non-writable property (including prototype chain)
                 let setter_to_call = {
